@@ -12,7 +12,7 @@ for p in "$@"; do
     [ -f "$f" ] || continue
     n=$((n+1))
     out=$(bin/check "$p" --replay "$f" 2>&1)
-    if echo "$out" | grep -q "^replay: signature="; then continue; fi
+    # (signatures of listed known findings may show up on the clean tree too; what counts is "no unlisted violation")
     if echo "$out" | grep -q "replay: no unlisted violation"; then
       mkdir -p "replays/$p"; cp "$f" "replays/$p/$tag-$(basename "$f")"; k=$((k+1))
     fi
